@@ -120,6 +120,14 @@ func (igi IndexGroupInfo) clone() IndexGroupInfo {
 			other.Indexes[i] = igi.Indexes[i].clone()
 		}
 	}
+	if igi.ClearInfo != nil {
+		// UpdateReplicaClearInfo modifies the clear info in place
+		clearInfo := *igi.ClearInfo
+		if igi.ClearInfo.ClearPeers != nil {
+			clearInfo.ClearPeers = append([]uint64(nil), igi.ClearInfo.ClearPeers...)
+		}
+		other.ClearInfo = &clearInfo
+	}
 
 	return other
 }
